@@ -419,6 +419,15 @@ def job_bounded(tier, rng, din, dout):
                         f_in, f_out = U.get_fidelity(rho, sig), U.get_fidelity(ref, s_out)
                         ok = ok and f_out >= f_in - 1e-7 and -1e-9 <= f_in <= 1 + 1e-9 and abs(f_in - U.get_fidelity(sig, rho)) < 1e-7
                         ok = ok and U.get_relative_entropy(ref, s_out) <= U.get_relative_entropy(rho, sig) + 1e-6 if sk == 'full' else ok
+                        # torch branches of the spectral functions agree with the numpy branches (all four argument kinds of the fidelity)
+                        tr_, ts_ = torch.tensor(rho), torch.tensor(sig)
+                        ka = np.linalg.eigh(rho)[1][:, -1]; kb = np.linalg.eigh(sig)[1][:, -1]
+                        # sqrt of rounding-level eigenvalues of a rank-deficient state: 1e-9 differences between LAPACK drivers are noise
+                        ok = ok and abs(float(U.get_fidelity(tr_, ts_)) - f_in) < 1e-6 and abs(float(U.get_fidelity(torch.tensor(ka), ts_)) - U.get_fidelity(ka, sig)) < 1e-9
+                        ok = ok and abs(float(U.get_fidelity(tr_, torch.tensor(kb))) - U.get_fidelity(rho, kb)) < 1e-9 and abs(float(U.get_fidelity(torch.tensor(ka), torch.tensor(kb))) - abs(np.vdot(ka, kb)) ** 2) < 1e-10
+                        ok = ok and abs(float(U.get_von_neumann_entropy(tr_)) - U.get_von_neumann_entropy(rho)) < 1e-8
+                        if sk == 'full':
+                            ok = ok and abs(float(U.get_relative_entropy(tr_, ts_)) - U.get_relative_entropy(rho, sig)) < 1e-7 and abs(float(U.get_trace_distance(tr_, ts_)) - U.get_trace_distance(rho, sig)) < 1e-9
                         e = U.get_von_neumann_entropy(rho)
                         ok = ok and -1e-9 <= e <= np.log(din) + 1e-9
                 except Exception as ex:
